@@ -60,6 +60,12 @@ func Open(dir string, fs vfs.FS) (*Manager, error) {
 		rewriteThreshold: defaultRewriteThreshold,
 	}
 	if err := mgr.loadCurrent(); err != nil {
+		// Only a directory without a CURRENT file is a new one. Any other failure (an
+		// unreadable CURRENT, a manifest that cannot be opened right now) must not be
+		// answered by truncating the manifest: every table would then be an orphan.
+		if !errors.Is(err, os.ErrNotExist) || mgr.current != "" {
+			return nil, err
+		}
 		if err := mgr.createNew(); err != nil {
 			return nil, err
 		}
